@@ -308,13 +308,17 @@ def ints_of(out):
         return None
 
 
-def run_b(ctx, impl, items, tag):
-    """items: list of (name, original text, expected ints or None).  Compiles original and re-written
-    text, runs both.  Returns list of result dicts."""
+def prep_b(ctx, impl, items, tag, budget=1e9):
+    """items: list of (name, original text, expected ints or None).  PSyclone part of route (b): reads and
+    re-writes every program, writes both texts to the scratch directory.  Items after the time budget are
+    dropped (never the witnesses).  -> (directory, list of result dicts)"""
     d = ctx.scratch / ("gf_" + tag)
     d.mkdir(exist_ok=True)
     res = []
+    t0 = time.time()
     for name, text, exp in items:
+        if time.time() - t0 > budget and not name.startswith("a_wit_"):
+            continue
         r = {"name": name, "text": text, "expected": exp}
         try:
             r["written"] = impl.write(impl.read(text))
@@ -325,32 +329,45 @@ def run_b(ctx, impl, items, tag):
         if r["written"] is not None:
             (d / (name + "_w.f90")).write_text(r["written"])
         res.append(r)
-    jobs = os.environ.get("VERIF_JOBS", "4")
-    core.sh("ls *.f90 | xargs -P %s -I{} sh -c 'mkdir -p m_{} && gfortran -fcheck=all -O0 -ffree-line-length-none -J m_{} -o {}.x {} > {}.err 2>&1; "
-            "echo $? > {}.rc'" % (jobs, ), cwd=d, timeout=3000)
+    ctx.log("route (b): %d programs read and re-written in %.0fs" % (len(res), time.time() - t0))
+    return d, res
+
+
+def exec_b(ctx, d, res, timeout):
+    """compiler part of route (b) (no PSyclone: may run in a thread): gfortran on original and re-written
+    text, then run both"""
+    t0 = time.time()
+    jobs = str(max(8, int(os.environ.get("VERIF_JOBS", "4"))))
+    core.sh("ls *.f90 | xargs -P %s -I{} sh -c 'mkdir -p m_{} && gfortran -fcheck=all -O0 -ffree-line-length-none -J m_{} "
+            "-o {}.x {} > {}.err 2>&1; echo $? > {}.rc'" % (jobs, ), cwd=d, timeout=timeout)
     for r in res:
         for side in ("o", "w"):
             f = d / ("%s_%s.f90" % (r["name"], side))
             if not f.exists():
                 continue
             rcf = Path(str(f) + ".rc")
-            rc = int(rcf.read_text().strip()) if rcf.exists() and rcf.read_text().strip() else 99
+            txt = rcf.read_text().strip() if rcf.exists() else ""
+            if not txt:
+                r["compile_" + side] = None          # not compiled within the time limit: not a case
+                continue
+            rc = int(txt)
             r["compile_" + side] = rc
             if rc != 0:
-                r["compile_err_" + side] = Path(str(f) + ".err").read_text()[-600:]
+                ef = Path(str(f) + ".err")
+                r["compile_err_" + side] = ef.read_text()[-600:] if ef.exists() else ""
                 continue
             rc2, out = core.sh([str(f) + ".x"], timeout=30)
             r["run_rc_" + side] = rc2
             r["out_" + side] = out
-    return res
+    ctx.log("route (b): compiled and run in %.0fs" % (time.time() - t0))
 
 
 def judge_b(r):
     """-> None if the property holds on this program, else a description"""
     if r.get("internal_error"):
         return "internal error: " + r["internal_error"]
-    if r.get("compile_o") != 0:
-        return None      # the generated original is not accepted by gfortran: not a case (counted)
+    if r.get("compile_o") != 0 or (r.get("written") is not None and r.get("compile_w") is None):
+        return None      # the original is not accepted by gfortran / not compiled in time: not a case (counted)
     if r.get("run_rc_o") != 0:
         return None      # original fails at run time (e.g. bounds): not a valid input
     if r.get("compile_w") != 0:
@@ -449,6 +466,35 @@ def run(ctx):
     th.start()
 
     impl = Impl()
+    # ---- route (b), PSyclone part first; the compiler runs in the background during route (a)
+    items, meta = [], {}
+    n_b = ctx.pick(4, 60)
+    brng = ctx.rng("b")
+    for i in range(n_b):
+        g = gen.SGen(brng, procs=(i % 2 == 0), clash=(i % 5 == 1), allow_cb=(i % 3 == 0))
+        prog = g.program(brng.randint(3, 6))
+        vals = g.store(brng)
+        s = srcl.evaluate(prog, vals, g.bnds(), g.procs)
+        if s[0] != "ok":
+            continue
+        exp = None
+        if s[2] < 10 ** 6:
+            exp = [s[1].get(cc, 0) for d in g.decls() for cc in srcl.cells([d])]
+        name = "b%d" % i
+        items.append((name, srcl.program_text(name, prog, g.decls(), vals, g.procs), exp))
+        meta[name] = shapes_of(prog, {a: bs for a, (ty, bs, how) in g.arr.items() if all(lb >= 0 for lb, _ in bs)})
+    for k, txt in WITNESSES.items():
+        items.insert(0, ("a_wit_" + k.split("/")[1].replace("-", "_"), txt, None))
+    bdir, resb = prep_b(ctx, impl, items, "b", budget=ctx.pick(25, 150))
+    bres = {}
+
+    def do_b():
+        try:
+            exec_b(ctx, bdir, resb, timeout=ctx.pick(100, 480))
+        except Exception:     # noqa: BLE001
+            bres["exc"] = traceback.format_exc()
+    thb = threading.Thread(target=do_b)
+    thb.start()
     rng = ctx.rng("gen")
     srng = ctx.rng("stores")
     n_a = ctx.pick(40, 1400)
@@ -477,7 +523,7 @@ def run(ctx):
     cases, coq_cases, coq_idx = [], [], []
     fails = []
     oos = 0
-    budget = ctx.pick(38, 900)
+    budget = ctx.pick(38, 420)
     for i, cfg in enumerate(plan):
         if time.time() - t_start > budget and i >= 18:
             ctx.notes["route_a_truncated_at"] = i
@@ -525,38 +571,25 @@ def run(ctx):
 
     def do_corr():
         try:
+            t0 = time.time()
+            okm, outm = ctx.coq_make(["C01/Corr.vo"], timeout=1500)
+            if not okm:
+                raise RuntimeError("cannot build C01/Corr.vo:\n" + outm[-2000:])
             corr["bad"] = ctx.coq_eval_failing("From PV Require Import C01.Model C01.Corr.\nFrom PV Require Import Fort.Syntax.\n"
                                                "Require Import Coq.ZArith.ZArith.\nOpen Scope Z_scope.",
                                                "corr_case", "corr_check", coq_cases, shard=ctx.pick(400, 150), timeout=1500)
+            ctx.log("correspondence evaluated in %.0fs" % (time.time() - t0))
         except Exception:     # noqa: BLE001
             corr["exc"] = traceback.format_exc()
     th2 = threading.Thread(target=do_corr)
-    th.join()
-    ctx.log("proof thread finished")
     th2.start()
-    # ---- route (b)
-    items, meta = [], {}
-    n_b = ctx.pick(4, 260)
-    brng = ctx.rng("b")
-    for i in range(n_b):
-        g = gen.SGen(brng, procs=(i % 2 == 0), clash=(i % 5 == 1), allow_cb=(i % 3 == 0))
-        prog = g.program(brng.randint(3, 6))
-        vals = g.store(brng)
-        s = srcl.evaluate(prog, vals, g.bnds(), g.procs)
-        if s[0] != "ok":
-            continue
-        exp = None
-        if s[2] < 10 ** 6:
-            exp = [s[1].get(cc, 0) for d in g.decls() for cc in srcl.cells([d])]
-        name = "b%d" % i
-        items.append((name, srcl.program_text(name, prog, g.decls(), vals, g.procs), exp))
-        meta[name] = shapes_of(prog, {a: bs for a, (ty, bs, how) in g.arr.items() if all(lb >= 0 for lb, _ in bs)})
-    for k, txt in WITNESSES.items():
-        items.append(("wit_" + k.split("/")[1].replace("-", "_"), txt, None))
-    resb = run_b(ctx, impl, items, "b")
+    # ---- route (b): results
+    thb.join()
+    if "exc" in bres:
+        raise RuntimeError("route (b) failed:\n" + bres["exc"])
     nb_ok = 0
     for r in resb:
-        if r["name"].startswith("wit_"):
+        if r["name"].startswith("a_wit_"):
             continue
         ctx.count(r["text"], nontrivial=r.get("compile_o") == 0 and r.get("run_rc_o") == 0)
         ctx.hist("route_b", "original compiles and runs" if r.get("compile_o") == 0 and r.get("run_rc_o") == 0
@@ -591,9 +624,9 @@ def run(ctx):
     ctx.log("route (b): %d programs compiled and run, %d hold" % (len(resb), nb_ok))
     # ---- witnesses of the known findings (each is re-demonstrated, or silently not reported)
     for r in resb:
-        if not r["name"].startswith("wit_"):
+        if not r["name"].startswith("a_wit_"):
             continue
-        key = [k for k in WITNESSES if r["name"] == "wit_" + k.split("/")[1].replace("-", "_")][0]
+        key = [k for k in WITNESSES if r["name"] == "a_wit_" + k.split("/")[1].replace("-", "_")][0]
         why = judge_b(r)
         ctx.notes.setdefault("witness_replay", {})[key] = why or "property holds on the witness"
         if why is not None:
@@ -617,6 +650,7 @@ def run(ctx):
                        "props/C01/psy2t.py understands (the reader output changed shape)" % (oos, len(cases))}, no_input=True)
     # ---- proofs / correspondence
     th2.join()
+    th.join()
     if "exc" in proof:
         raise RuntimeError("ctx.prove failed:\n" + proof["exc"])
     ok, rep = proof["res"]
